@@ -514,6 +514,9 @@ def run(ctx):
         for r in ctx.rules[n0:]:
             r.min_instances = 0
     rule_logging_cannot_raise(ctx)
+    from .shared import rule_signal_dispositions
+    r9 = ctx.rule("R9", "a client that vanishes costs one connection, not the process: no code of the package restores the default (fatal) disposition of SIGPIPE")
+    rule_signal_dispositions(ctx, r9, "C14")
     from .shared import rule_coroutines_awaited
     r8 = ctx.rule("R8", "requests are carried out: every coroutine of the pool that is called is awaited or scheduled (no call statement drops a coroutine object)")
     rule_coroutines_awaited(ctx, r8)
